@@ -416,6 +416,12 @@ fn process(cfg: CliOptions) -> Vec<RuntimeError> {
                     e.into(),
                 ))
             });
+
+        // drop-ins can set ServiceName=, ContainerName= or ImageTag=: derive the names from the merged unit
+        match QuadletUnitFile::from_unit_file(quadlet.unit_file.clone()) {
+            Ok(q) => *quadlet = q,
+            Err(e) => prev_errors.push(e),
+        }
     }
 
     if !cfg.dry_run {
